@@ -186,9 +186,9 @@ def make_request(rnd, ctx, J, CH):
     spendable = J.wallet_unspent(min_confirms)
     bal = sum(u['value'] for u in spendable.values())
     from vf import wallet_env
-    kind = rnd.choice(['send_to', 'send_to', 'send', 'send', 'create_inputs', 'sweep', 'sweep_multi', 'rbf_bump', 'over'])
+    kind = rnd.choice(['send_to', 'send_to', 'send', 'send', 'create_inputs', 'sweep', 'sweep_multi', 'rbf_bump', 'rbf_bump_reload', 'over'])
     req = {'kind': kind, 'min_confirms': min_confirms, 'broadcast': rnd.random() < 0.5, 'rseed': rnd.getrandbits(30)}
-    nrec = 1 if kind in ('send_to', 'sweep', 'over', 'rbf_bump') else rnd.randint(2, 5)
+    nrec = 1 if kind in ('send_to', 'sweep', 'over', 'rbf_bump', 'rbf_bump_reload') else rnd.randint(2, 5)
     recs = []
     scale = 100 if network.startswith('dogecoin') else 1
     for _ in range(nrec):
@@ -210,6 +210,13 @@ def make_request(rnd, ctx, J, CH):
             recs[-1]['amount'] = 0
         else:
             recs[0]['amount'] = 0
+    if kind == 'rbf_bump_reload':
+        # pays one of the wallet's own payment addresses, is broadcast, reloaded from the database and then fee-bumped
+        own = ctx.ref_address(0, 0)
+        recs = [{'address': own, 'script': ctx.ref.script(0, 0, 0).hex() if ctx.kind != 'single' else ctx.ref.script().hex(),
+                 'amount': max(dust + 1, bal // 4)}]
+        req['broadcast'] = True
+        req['fixed_order'] = True
     req['recipients'] = recs
     if kind == 'create_inputs':
         req['broadcast'] = False
@@ -275,6 +282,9 @@ def execute(req, ctx):
         return w.sweep(out_arr[0][0], fee=fee, fee_per_kb=req.get('fee_per_kb'), **kw)
     if k == 'sweep_multi':
         return w.sweep(out_arr, fee=fee, fee_per_kb=req.get('fee_per_kb'), **kw)
+    if k == 'rbf_bump_reload':
+        return w.send_to(out_arr[0][0], out_arr[0][1], fee=fee, priv_keys=priv, replace_by_fee=True, min_confirms=req['min_confirms'],
+                         broadcast=True, number_of_change_outputs=1, random_output_order=False)
     if k == 'rbf_bump':
         return w.send_to(out_arr[0][0], out_arr[0][1], fee=fee, priv_keys=priv, replace_by_fee=True, min_confirms=req['min_confirms'],
                          broadcast=False, number_of_change_outputs=max(1, req['n_change']))
@@ -329,6 +339,7 @@ def run_wallet(case, col):
         col.violation(None, 'utxos_update raised %r' % (e,), case, repr(e), None)
         return
     for step in range(case['n_req']):
+        CH.snapshot()
         req = make_request(rnd, ctx, J, CH)
         label = '%s/%s' % (req['kind'], req['fee_mode'])
         before_unspent = J.wallet_unspent(req['min_confirms'])
@@ -372,6 +383,15 @@ def run_wallet(case, col):
                                   dict(case, request=req), getattr(t, 'error', None), 'broadcast')
             elif new_b:
                 col.violation(None, '[%s] broadcast=False but the wallet published a transaction' % label, dict(case, request=req), new_b[-1]['txid'], 'no broadcast')
+            if req['kind'] == 'rbf_bump_reload' and getattr(t, 'pushed', False):
+                try:
+                    t2 = w.transaction(t.txid)
+                    t2.bumpfee(extra_fee=rnd.choice([t2.vsize + 1, 3 * t2.vsize]))
+                    f3 = J.check_tx(t2, dict(req, min_confirms=0), before_unspent, 'bumpfee-reloaded') or {}
+                    col.case('bumpfee-reloaded/%s/%s' % (kind, wt), nontrivial=('bumpfee-reloaded', kind, wt, f3.get('n_change', 0)))
+                    col.probe('bumpfee_reloaded')
+                except Exception as e:
+                    col.case('bumpfee-reloaded/%s/%s/refused' % (kind, wt), nontrivial=('bumpfee-reloaded', kind, wt, 'refused', type(e).__name__))
             if req['kind'] == 'rbf_bump':
                 mode = rnd.choice(['auto', 'fee', 'extra_fee'])
                 bump_before = J.wallet_unspent(0)
@@ -405,10 +425,24 @@ def run_wallet(case, col):
             nontriv = (kind, wt, req['kind'], req['fee_mode'], min(facts.get('n_change', 0), 3), outcome, facts.get('exc'))
         col.case('%s/%s/%s/%s' % (kind, wt, req['kind'], outcome), nontrivial=nontriv,
                  sample={'wallet': {k: case[k] for k in ('kind', 'wt', 'network')}, 'request': req, 'outcome': outcome, 'facts': facts})
-        if rnd.random() < 0.3:
-            CH.mine()
+        r_ = rnd.random()
+        if r_ < 0.5:
+            lag = 0
+            if r_ < 0.2 and len(CH.snapshots) > 1:
+                # refresh from a provider that is a few steps behind: it still lists outputs this wallet has spent
+                lag = rnd.randint(1, min(3, len(CH.snapshots) - 1))
+            else:
+                CH.mine()
             try:
-                w.utxos_update()
+                CH.faults['lag'] = lag
+                try:
+                    w.utxos_update()
+                finally:
+                    CH.faults['lag'] = 0
+                if lag:
+                    # no catch-up: the next request is judged against the true model (a wallet that believed the stale
+                    # listing would now select outputs it has already spent)
+                    col.probe('lagging_refresh')
             except Exception as e:
                 import traceback
                 col.violation(None, 'utxos_update raised %r' % (e,), case, traceback.format_exc()[-1500:], None)
